@@ -53,16 +53,11 @@ Set(heap, fid, n, v) == LET f == FindFrame(heap, fid, n) IN
 RECURSIVE FindDef(_,_,_)
 FindDef(defs, name, i) == IF i > Len(defs) THEN 0 ELSE IF defs[i].name = name THEN i ELSE FindDef(defs, name, i+1)
 
-\* innermost frame of the current function activation that is the lexical target
-RECURSIVE BlockIdFrom(_, _, _)
-BlockIdFrom(kont, name, i) == IF i > Len(kont) \/ kont[i].k = "fnbody" THEN 0
-                              ELSE IF kont[i].k = "block" /\ kont[i].name = name THEN kont[i].id
-                              ELSE BlockIdFrom(kont, name, i + 1)
+\* Blocks and tags are lexical: a block / tagbody makes an environment frame that binds the pseudo-variable "#b:<name>" /
+\* "#t:<tag>" to the unique id of its continuation frame; return-from / go look the name up like a variable (so a lambda sees
+\* the blocks and tags of the place it was written in, a named function none of its caller's) and unwind to the frame with
+\* that id.  (With the deviation "dynscope" the lookup goes through the caller's frames first, like every other lookup.)
 HasTag(stmts, tag) == \E j \in 1..Len(stmts) : stmts[j].tag = tag
-RECURSIVE TagbodyIdFrom(_, _, _)
-TagbodyIdFrom(kont, tag, i) == IF i > Len(kont) \/ kont[i].k = "fnbody" THEN 0
-                               ELSE IF kont[i].k = "tagbody" /\ HasTag(kont[i].stmts, tag) THEN kont[i].id
-                               ELSE TagbodyIdFrom(kont, tag, i + 1)
 Ret(m, v) == [m EXCEPT !.mode = "ret", !.val = One(v)]
 RetVs(m, vs) == [m EXCEPT !.mode = "ret", !.val = vs]
 Ev(m, node, env) == [m EXCEPT !.mode = "eval", !.node = node, !.env = env]
@@ -74,6 +69,11 @@ NewFrame(m, parent, vs) == LET h2 == Append(m.heap, [parent |-> parent, vars |->
 CallFrame(m, parent, vs, caller) == LET h2 == Append(m.heap, [parent |-> parent, vars |-> vs, dyn |-> IF "dynscope" \in m.dev THEN caller ELSE 0]) IN [m EXCEPT !.heap = h2]
 Top(m) == Len(m.heap)                             \* id of the frame NewFrame just made
 Bindings(ps, vals) == [j \in 1..Len(ps) |-> [n |-> ps[j], v |-> IF j <= Len(vals) THEN vals[j] ELSE Nil]]
+\* enter a block: [machine, environment of the body]
+BlockEnter(m, name, env) ==
+  LET m2 == NewFrame([m EXCEPT !.nid = m.nid + 1], env, <<[n |-> "#b:" \o name, v |-> IntV(m.nid)]>>) IN
+  Push(m2, [k |-> "block", name |-> name, id |-> m.nid])
+LexId(m, env, key) == LET b == Get(m.heap, env, key) IN IF b.k = "int" THEN b.v ELSE 0
 Exit(m, kind, target, tag, v) == [m EXCEPT !.mode = "exit", !.ex = [kind |-> kind, target |-> target, tag |-> tag, val |-> v]]
 Err(m, class) == Exit(m, "error", 0, class, <<>>)
 \* typecase / etypecase: the type names the generator uses, on the values of the machine
@@ -108,6 +108,23 @@ Apply(m, f, args, caller) ==
             Body(Push(CallFrame(m, 1, Bindings(d.ps, args), caller), [k |-> "fnbody"]), d.body, Len(m.heap) + 1)
   ELSE IF f.k = "fn" /\ f.name = "+" THEN (IF \E j \in 1..Len(args) : ~IsInt(args[j]) THEN Err(m, "type-error") ELSE Ret(m, IntV(SumOf(args))))
   ELSE Err(m, "undefined-function")
+
+\* one more result v of the function of a map3 frame fr (the machine m1 is the one below the frame): the mapping functions collect,
+\* every / some stop at the first false / true value, find-if / count-if / remove-if use the value as a truth value
+MapStep(m1, fr, v) ==
+  LET acc == Append(fr.acc, v)
+      more == Apply(Push(m1, [fr EXCEPT !.rest = Tail(fr.rest), !.acc = acc, !.cur = fr.rest[1]]), fr.f, <<fr.rest[1]>>, fr.env)
+      items == IF fr.op = "maplist" THEN <<>> ELSE Elts(fr.orig) IN
+  CASE fr.op = "every" -> IF ~IsTrue(v) THEN Ret(m1, Nil) ELSE IF fr.rest = <<>> THEN Ret(m1, T) ELSE more
+    [] fr.op = "some" -> IF IsTrue(v) THEN Ret(m1, v) ELSE IF fr.rest = <<>> THEN Ret(m1, Nil) ELSE more
+    [] fr.op = "findif" -> IF IsTrue(v) THEN Ret(m1, fr.cur) ELSE IF fr.rest = <<>> THEN Ret(m1, Nil) ELSE more
+    [] fr.rest # <<>> -> more
+    [] fr.op = "countif" -> Ret(m1, IntV(Cardinality({j \in 1..Len(acc) : IsTrue(acc[j])})))
+    [] fr.op = "removeif" -> LET idx == SelectSeq([j \in 1..Len(acc) |-> j], LAMBDA j : ~IsTrue(acc[j])) IN Ret(m1, ListV([k \in 1..Len(idx) |-> items[idx[k]]]))
+    [] fr.op = "mapc" -> Ret(m1, fr.orig)                      \* the list itself
+    [] fr.op = "mapcan" -> IF \E j \in 1..Len(acc) : acc[j].k \notin {"nil", "list"} THEN Err(m1, "type-error")
+                           ELSE Ret(m1, ListV(Flat(acc)))     \* the results concatenated
+    [] OTHER -> Ret(m1, ListV(acc))
 
 StepEval(m) ==
   LET n == m.node IN
@@ -151,19 +168,22 @@ StepEval(m) ==
     [] n.k = "mvb" -> Ev(Push(m, [k |-> "mvb", vars |-> n.vars, body |-> n.body, env |-> m.env]), n.e, m.env)
     [] n.k = "lam" -> Ret(m, [k |-> "clo", ps |-> n.ps, body |-> n.body, env |-> m.env])
     [] n.k = "fnref" -> Ret(m, [k |-> "fn", name |-> n.name])
-    [] n.k = "block" -> Body(Push([m EXCEPT !.nid = m.nid + 1], [k |-> "block", name |-> n.name, id |-> m.nid]), n.body, m.env)
-    [] n.k = "retfrom" -> Ev(Push(m, [k |-> "retfrom", name |-> n.name]), n.e, m.env)
+    [] n.k = "block" -> Body(BlockEnter(m, n.name, m.env), n.body, Len(m.heap) + 1)
+    [] n.k = "retfrom" -> Ev(Push(m, [k |-> "retfrom", name |-> n.name, env |-> m.env]), n.e, m.env)
     [] n.k = "protect" -> Ev(Push(m, [k |-> "protect", cleanup |-> n.cleanup, env |-> m.env]), n.e, m.env)
-    [] n.k = "tagbody" -> LET m2 == Push([m EXCEPT !.nid = m.nid + 1], [k |-> "tagbody", stmts |-> n.stmts, i |-> 1, id |-> m.nid, env |-> m.env]) IN
-                          IF Len(n.stmts) = 0 THEN Ret(m, Nil) ELSE Ev(m2, TagStmt(n.stmts[1].e), m.env)
-    [] n.k = "go" -> LET tgt == TagbodyIdFrom(m.kont, n.tag, 1) IN
+    [] n.k = "tagbody" -> LET tags == SelectSeq(n.stmts, LAMBDA st : st.tag # "")
+                              m1 == NewFrame([m EXCEPT !.nid = m.nid + 1], m.env, [j \in 1..Len(tags) |-> [n |-> "#t:" \o tags[j].tag, v |-> IntV(m.nid)]])
+                              e2 == Len(m.heap) + 1
+                              m2 == Push(m1, [k |-> "tagbody", stmts |-> n.stmts, i |-> 1, id |-> m.nid, env |-> e2]) IN
+                          IF Len(n.stmts) = 0 THEN Ret(m, Nil) ELSE Ev(m2, TagStmt(n.stmts[1].e), e2)
+    [] n.k = "go" -> LET tgt == LexId(m, m.env, "#t:" \o n.tag) IN
                      IF tgt = 0 THEN Err(m, "control-error") ELSE Exit(m, "go", tgt, n.tag, <<>>)
     [] n.k = "error" -> Err(m, n.class)
     [] n.k = "ignerr" -> Body(Push(m, [k |-> "ignerr"]), n.body, m.env)
     [] n.k = "fcall" -> Ev(Push(m, [k |-> "fc", args |-> n.args, i |-> 0, f |-> Nil, acc |-> <<>>, spread |-> n.spread, env |-> m.env]), n.f, m.env)
     [] n.k = "call" -> IF Len(n.args) = 0 THEN Apply(m, [k |-> "fn", name |-> n.f], <<>>, m.env)
                        ELSE Ev(Push(m, [k |-> "call", f |-> n.f, args |-> n.args, i |-> 1, acc |-> <<>>, env |-> m.env]), n.args[1], m.env)
-    [] n.k \in {"mapcar", "mapc", "mapcan", "maplist"} -> Ev(Push(m, [k |-> "map1", op |-> n.k, l |-> n.l, env |-> m.env]), n.f, m.env)
+    [] n.k \in {"mapcar", "mapc", "mapcan", "maplist", "every", "some", "findif", "countif", "removeif"} -> Ev(Push(m, [k |-> "map1", op |-> n.k, l |-> n.l, env |-> m.env]), n.f, m.env)
     \* (psetq a e1 b e2 ...): all the forms are evaluated, then all the variables assigned; the value is nil
     [] n.k = "psetq" -> IF Len(n.ps) = 0 THEN Ret(m, Nil)
                         ELSE Ev(Push(m, [k |-> "psetq", ps |-> n.ps, i |-> 1, acc |-> <<>>, env |-> m.env]), n.ps[1].e, m.env)
@@ -179,7 +199,7 @@ StepEval(m) ==
     [] n.k = "prog" -> Ev(m, [k |-> "block", name |-> "nil",
                                body |-> <<[k |-> IF n.star THEN "letx" ELSE "let", bs |-> n.bs, body |-> <<[k |-> "tagbody", stmts |-> n.stmts]>>]>>], m.env)
     \* (loop form ...): the forms again and again inside a block named nil
-    [] n.k = "sloop" -> Body(Push(Push([m EXCEPT !.nid = m.nid + 1], [k |-> "block", name |-> "nil", id |-> m.nid]), [k |-> "sloop", body |-> n.body, env |-> m.env]), n.body, m.env)
+    [] n.k = "sloop" -> LET e2 == Len(m.heap) + 1 IN Body(Push(BlockEnter(m, "nil", m.env), [k |-> "sloop", body |-> n.body, env |-> e2]), n.body, e2)
     \* (recover var on-recover form ...): the forms; when one of them signals, on-recover with var bound (to a description of the condition)
     [] n.k = "recover" -> Body(Push(m, [k |-> "recover", var |-> n.var, on |-> n.on, env |-> m.env]), n.body, m.env)
     \* (incf v d) / (decf v d): the variable is read after the delta form has been evaluated
@@ -193,13 +213,13 @@ StepEval(m) ==
     [] n.k = "dotimes" -> Ev(Push(m, [k |-> "dotimes0", var |-> n.var, res |-> n.res, body |-> n.body, env |-> m.env]), n.c, m.env)
     [] n.k = "do" ->
          \* (do / do* ((var init step) ...) (test result ...) body ...): an implicit block nil around everything
-         LET blk == [k |-> "block", name |-> "nil", id |-> m.nid]
-             m0  == Push([m EXCEPT !.nid = m.nid + 1], blk) IN
-         IF Len(n.vars) = 0 THEN Ev(Push(NewFrame(m0, m.env, <<>>), [k |-> "dotest", n |-> n, env |-> Len(m.heap) + 1]), n.test, Len(m.heap) + 1)
+         LET m0 == BlockEnter(m, "nil", m.env)
+             e0 == Len(m.heap) + 1 IN                   \* the environment inside the block: the init forms are inside it
+         IF Len(n.vars) = 0 THEN Ev(Push(NewFrame(m0, e0, <<>>), [k |-> "dotest", n |-> n, env |-> e0 + 1]), n.test, e0 + 1)
          ELSE IF n.star
-              THEN LET m2 == NewFrame(m0, m.env, <<>>)  e2 == Len(m.heap) + 1 IN
-                   Ev(Push(m2, [k |-> "doinit", n |-> n, i |-> 1, acc |-> <<>>, env |-> e2, outer |-> m.env]), n.vars[1].init, e2)
-              ELSE Ev(Push(m0, [k |-> "doinit", n |-> n, i |-> 1, acc |-> <<>>, env |-> 0, outer |-> m.env]), n.vars[1].init, m.env)
+              THEN LET m2 == NewFrame(m0, e0, <<>>)  e2 == e0 + 1 IN
+                   Ev(Push(m2, [k |-> "doinit", n |-> n, i |-> 1, acc |-> <<>>, env |-> e2, outer |-> e0]), n.vars[1].init, e2)
+              ELSE Ev(Push(m0, [k |-> "doinit", n |-> n, i |-> 1, acc |-> <<>>, env |-> 0, outer |-> e0]), n.vars[1].init, e0)
     [] OTHER -> Err(m, "machine-stuck-at-node-" \o n.k)
 
 \* the loop machinery shared by dolist / dotimes: iteration j over items, each in a fresh frame binding var
@@ -250,7 +270,7 @@ StepRet(m) ==
     [] fr.k = "held" -> Ret(m1, IF v.k = "res" THEN Bool(m.res[v.id]) ELSE Nil)
     [] fr.k = "mark" -> Ret([m1 EXCEPT !.out = Append(m.out, [id |-> fr.id, v |-> v])], v)
     [] fr.k \in {"block", "fnbody", "ignerr"} -> RetVs(m1, m.val)
-    [] fr.k = "retfrom" -> LET tgt == BlockIdFrom(m1.kont, fr.name, 1) IN
+    [] fr.k = "retfrom" -> LET tgt == LexId(m, fr.env, "#b:" \o fr.name) IN
                            IF tgt = 0 THEN Err(m1, "control-error") ELSE Exit(m1, "return", tgt, "", m.val)   \* all the values
     [] fr.k = "protect" -> Body(Push(m1, [k |-> "after-cleanup", pending |-> FALSE, vals |-> m.val, ex |-> m.ex]), fr.cleanup, fr.env)
     [] fr.k = "after-cleanup" -> IF fr.pending THEN [m1 EXCEPT !.mode = "exit", !.ex = fr.ex] ELSE RetVs(m1, fr.vals)
@@ -295,15 +315,11 @@ StepRet(m) ==
     [] fr.k = "map1" -> Ev(Push(m1, [k |-> "map2", op |-> fr.op, f |-> v, env |-> fr.env]), fr.l, fr.env)
     \* mapcar / mapc / mapcan call the function on the elements, maplist on the list and its tails
     [] fr.k = "map2" -> LET es == IF fr.op = "maplist" THEN Tails(Elts(v)) ELSE Elts(v) IN
-                        IF es = <<>> THEN Ret(m1, Nil)
-                        ELSE Apply(Push(m1, [k |-> "map3", op |-> fr.op, orig |-> v, f |-> fr.f, rest |-> Tail(es), acc |-> <<>>, env |-> fr.env]), fr.f, <<es[1]>>, fr.env)
-    [] fr.k = "map3" -> LET acc == Append(fr.acc, v) IN
-                        IF fr.rest = <<>>
-                        THEN (CASE fr.op = "mapc" -> Ret(m1, fr.orig)                      \* the list itself
-                                [] fr.op = "mapcan" -> IF \E j \in 1..Len(acc) : acc[j].k \notin {"nil", "list"} THEN Err(m1, "type-error")
-                                                       ELSE Ret(m1, ListV(Flat(acc)))     \* the results concatenated
-                                [] OTHER -> Ret(m1, ListV(acc)))
-                        ELSE Apply(Push(m1, [fr EXCEPT !.rest = Tail(fr.rest), !.acc = acc]), fr.f, <<fr.rest[1]>>, fr.env)
+                        IF es = <<>> /\ fr.op = "every" THEN Ret(m1, T)
+                        ELSE IF es = <<>> /\ fr.op = "countif" THEN Ret(m1, IntV(0))
+                        ELSE IF es = <<>> THEN Ret(m1, Nil)
+                        ELSE Apply(Push(m1, [k |-> "map3", op |-> fr.op, orig |-> v, f |-> fr.f, rest |-> Tail(es), acc |-> <<>>, cur |-> es[1], env |-> fr.env]), fr.f, <<es[1]>>, fr.env)
+    [] fr.k = "map3" -> MapStep(m1, fr, v)
     [] fr.k = "psetq" -> LET acc == Append(fr.acc, v) IN
                          IF fr.i = Len(fr.ps)
                          THEN LET RECURSIVE SetP(_, _)
@@ -336,12 +352,11 @@ StepRet(m) ==
                         IF cur.k = "unbound" THEN Err(m1, "unbound-variable")
                         ELSE IF cur.k \notin {"nil", "list"} THEN Err(m1, "type-error")
                         ELSE Ret([m1 EXCEPT !.heap = Set(m.heap, fr.env, fr.n, ListV(<<v>> \o Elts(cur)))], ListV(<<v>> \o Elts(cur)))
-    [] fr.k = "dolist0" -> LET blk == [k |-> "block", name |-> "nil", id |-> m.nid] IN
-                           LoopNext(Push([m1 EXCEPT !.nid = m.nid + 1], blk),
-                                    [k |-> "loop", var |-> fr.var, items |-> Elts(v), last |-> Nil, res |-> fr.res, body |-> fr.body, env |-> fr.env])
-    [] fr.k = "dotimes0" -> LET blk == [k |-> "block", name |-> "nil", id |-> m.nid]  c == IF v.k = "int" THEN v.v ELSE 0 IN
-                            LoopNext(Push([m1 EXCEPT !.nid = m.nid + 1], blk),
-                                     [k |-> "loop", var |-> fr.var, items |-> Upto(0, c), last |-> IntV(IF c < 0 THEN 0 ELSE c), res |-> fr.res, body |-> fr.body, env |-> fr.env])
+    [] fr.k = "dolist0" -> LoopNext(BlockEnter(m1, "nil", fr.env),
+                                    [k |-> "loop", var |-> fr.var, items |-> Elts(v), last |-> Nil, res |-> fr.res, body |-> fr.body, env |-> Len(m.heap) + 1])
+    [] fr.k = "dotimes0" -> LET c == IF v.k = "int" THEN v.v ELSE 0 IN
+                            LoopNext(BlockEnter(m1, "nil", fr.env),
+                                     [k |-> "loop", var |-> fr.var, items |-> Upto(0, c), last |-> IntV(IF c < 0 THEN 0 ELSE c), res |-> fr.res, body |-> fr.body, env |-> Len(m.heap) + 1])
     [] fr.k = "loop" -> LoopNext(m1, fr)
     [] fr.k = "loopres" -> RetVs(m1, m.val)           \* then the implicit block frame returns it
     [] fr.k = "doinit" ->
@@ -386,6 +401,10 @@ StepExit(m) ==
   ELSE IF fr.k = "recover" /\ x.kind = "error"
        THEN LET m2 == NewFrame([m1 EXCEPT !.mode = "eval"], fr.env, <<[n |-> fr.var, v |-> [k |-> "cond", c |-> x.tag]]>>) IN Ev(m2, fr.on, Top(m2))
   ELSE IF fr.k = "res" THEN [m1 EXCEPT !.res[fr.id] = FALSE]                  \* released on the way out
+  \* named deviation "exit-as-value" (open finding C07-F10): every, find-if, count-if and remove-if take the marker of a
+  \* return-from / return / go that comes out of their function for its (true) value and go on
+  ELSE IF fr.k = "map3" /\ fr.op \in {"every", "findif", "countif", "removeif"} /\ x.kind \in {"return", "go"} /\ "exit-as-value" \in m.dev
+       THEN MapStep([m1 EXCEPT !.mode = "ret"], fr, T)
   ELSE IF fr.k = "protect"
        THEN Body(Push([m1 EXCEPT !.mode = "eval"], [k |-> "after-cleanup", pending |-> TRUE, vals |-> <<>>, ex |-> x]), fr.cleanup, fr.env)
   ELSE m1
